@@ -464,9 +464,9 @@ def _do_extract(res, repo_root, head, block, canary, tpl_path):
             elif d.kind in ('before', 'after'):
                 anchor = d.arg
                 occ = None
-                mo = re.match(r'^(.*)\s+#(\d+)$', anchor)
+                mo = re.match(r'^(.*)\s+#(\d+|last)$', anchor)
                 if mo:
-                    anchor, occ = mo.group(1), int(mo.group(2))
+                    anchor, occ = mo.group(1), (-1 if mo.group(2) == 'last' else int(mo.group(2)))
                 idxs = [mm.start() for mm in re.finditer(re.escape(anchor), t.s)]
                 # only count occurrences that come from the source (not from inserted payload)
                 idxs = [ix for ix in idxs if t.o[ix] is not None]
@@ -474,6 +474,10 @@ def _do_extract(res, repo_root, head, block, canary, tpl_path):
                     if len(idxs) != 1:
                         raise ExtractError("%s: anchor `%s` in %s matches %d times" % (file_rel, anchor, selector, len(idxs)))
                     ix = idxs[0]
+                elif occ == -1:
+                    if not idxs:
+                        raise ExtractError("%s: anchor `%s` #last not found in %s" % (file_rel, anchor, selector))
+                    ix = idxs[-1]
                 else:
                     if occ > len(idxs):
                         raise ExtractError("%s: anchor `%s` #%d not found in %s" % (file_rel, anchor, occ, selector))
